@@ -270,11 +270,11 @@ def run(ctx):
         text += render_nest("n%d" % j, k) + "\n"
         ks.append({"name": "n%d" % j, "runs": [nest_args(k, c["a"]) + [{"t": "int*", "n": NW ** len(k["loops"])}] for c in cs]})
         idx.append(cs)
-    if not os.environ.get("C17_LIMIT"):
-        batches.append(Batch("c17nest", text, ks))
-        index.append(idx)
+    batches.append(Batch("c17nest", text, ks))
+    index.append(idx)
     # 4. translate / build / run
-    res = oklrun_lib.execute(ctx, batches, MODES, fanout=(8 if thorough else 4), build_workers=(8 if thorough else 4))
+    res = oklrun_lib.execute(ctx, batches, MODES, fanout=(8 if thorough else 4), build_workers=(8 if thorough else 4),
+                              asan_batches=(4 if thorough else 1))
     # 5. compare with the spec
     def decode(idx_, c):
         if c.get("nest"):
@@ -323,5 +323,5 @@ def run(ctx):
         "source, host emulation of the documented launch model (groups sequential, work-items real threads); no GPU",
         "operand values within -10..10, loops of at most 9 iterations, steps 1..3; int (and long in the thorough tier) iterators",
         "one loop under test per kernel, the other OKL loop has one iteration; run-time arguments are ints",
-        "translators run under ASan+UBSan; Serial/OpenMP kernels are built by the real JIT with -O0"]
+        "a sample of the batches is additionally translated under ASan+UBSan (see notes); Serial/OpenMP kernels are built by the real JIT with -O0"]
     return ctx.finish(exhaustive=False)
